@@ -20,15 +20,18 @@ TRUSTED = ['time.sleep sleeps at least its argument, perf_counter is monotone (e
            'os/file system, requests (stubbed), sugar.read (used to parse payloads)',
            'modelled: Entrez.wait_before_request, the cache decision of fetch_seq, fetch_basket/get_* as iteration (_entrez.py:26-76)',
            'client stream: the whole of _entrez.py:26-77 incl. path/ext defaults, os.path.join file names, per-call limit choice, failing requests (run_C19_client); '
-           'sugar.read is an oracle (texts are compared, parsed records are checked against read(payload) and hand-written expectations)']
+           'sugar.read is an oracle (texts are compared, parsed records are checked against read(payload) and hand-written expectations)',
+           'reader assumption of the theorems get_requested / get_cached / get_basket_reads_in_order: read is an ARBITRARY function text -> option (list record) '
+           '(Coq section variable R, read), applied to the text delivered by fetch_seq (file content or in-memory answer); that sugar.read depends on the text only - not on the '
+           'file name/extension, a text-mode file vs StringIO, or earlier reads - is tested by the runs (CRLF payloads, ext different from the format, re-inspection), not proved']
 ASSUMPTIONS = ['single-threaded client', 'integer-tick virtual clock']
-LEVEL_TEXT = ('Coq theorems (32) over executable models of the whole of sugar/web/_entrez.py. RATE, for every call history with arbitrary non-negative arrival gaps, sleep '
+LEVEL_TEXT = ('Coq theorems (35) over executable models of the whole of sugar/web/_entrez.py. RATE, for every call history with arbitrary non-negative arrival gaps, sleep '
               'overshoots and request durations (failed requests count as starts): at most N starts in ANY half-open one-second window [x, x+W), x arbitrary (window_limit; N, W '
               'regenerated); the limit is chosen per call: for ANY history of key switches never more than 10 starts in any window (window_limit_any_key; invariant: every '
               'start no longer in the deque is at least W old), a key added later keeps 3 before / 10 after (key_added_later), a key REMOVED lets 10 keyless requests start in one '
               'window (key_removed_refuted, pending fix keyswitch); sleep iff popleft branch and popped stamp younger than W (wait_sleeps_iff), in reachable states iff N requests '
               'started within the last second (sleep_iff_window_full); the requests of any history of public calls on one client are such a limiter history '
-              '(client_window_limit, client_window_limit_const). CACHE: complete decision table of fetch_seq (fetch_decision_table, need_request_iff, eff_path_table); for ANY '
+              '(client_window_limit, client_window_limit_const) and the start times the events report are its record (client_starts, client_starts_window, client_starts_window_const). CACHE: complete decision table of fetch_seq (fetch_decision_table, need_request_iff, eff_path_table); for ANY '
               'history of fetch_seq/get_seq/fetch_basket/get_basket calls from any state, requests for a file <= (1 unless a non-empty file was there) + calls with overwrite + '
               'requests that failed or were answered empty (cache_request_bound, cache_once_history), the file holds the last successful answer (file_is_last_answer), baskets are '
               'one fetch per id occurrence in order, duplicates not merged (basket_shape, basket_nocache_requests_all); with the reader as an arbitrary function the result of get_seq '
@@ -102,7 +105,7 @@ def gen_cases(rng, tier):
             calls.append(c)
         cases.append({'kind': 'cache', 'payloads': payloads, 'files': files, 'calls': calls})
     cases += gen_name_cases()
-    nclient, nlong = (6000, 600) if tier == 'thorough' else (500, 40)
+    nclient, nlong = (4000, 300) if tier == 'thorough' else (500, 40)
     for _ in range(nclient):
         cases.append(gen_client_case(rng))
     for _ in range(nlong):
